@@ -38,6 +38,17 @@ def _run(c, cfgs_quick, cfgs_thorough, kinds):
                 total['completed'] += wres['completed']
                 behs = [wit] + behs
                 c.cov['witness_behaviours'] = c.cov.get('witness_behaviours', 0) + 1
+        if cfg == 'sim.cfg' and 'cache' in kinds:
+            # witness: the cache-empty handler populates the channel with a publication the subscription's filter excludes
+            wit = c.tlc_witness('SubStream', 'SubStream', 'wit_pop.cfg', 'W_PopulatedFiltered', workers=1, timeout=600)
+            if wit is None:
+                c.cov['actions_never_taken'].append('witness:W_PopulatedFiltered')
+            else:
+                wres = c.replay_retry(binp, 'replay', [wit, wit], wrap=lambda b, cfg=cfg: {'hist_size': HIST[cfg], 'rec_limit': 0, 'behaviours': b}, timeout=300)
+                c.absorb(wres)
+                total['executed'] += wres['executed']
+                total['completed'] += wres['completed']
+                c.cov['witness_behaviours'] = c.cov.get('witness_behaviours', 0) + 1
         res = c.replay_retry(binp, 'replay', behs, wrap=lambda b, cfg=cfg, rec_limit=rec_limit: {'hist_size': HIST[cfg], 'rec_limit': rec_limit, 'behaviours': b}, timeout=900)
         c.absorb(res)
         total['executed'] += res['executed']
